@@ -4,13 +4,23 @@
    functional theorems where proved (C10 push law, C11 set_host) and by the correspondence check. *)
 From Coq Require Import List NArith Bool Arith.
 Import ListNotations.
-Require Import V.Regex V.Parse V.ParseProofs V.Splice V.Setters V.C04Proofs.
+Require Import V.Regex V.Parse V.ParseProofs V.PathSpec V.Splice V.Setters V.Push V.Auth V.AuthProofs V.AuthMut V.AuthMutProofs2 V.RefPath V.RefAuth V.C04Proofs V.C04Proofs2.
 Local Open Scope nat_scope.
 
 Theorem C04_setter_sequences_partial : forall (ops : list sop) (p : parts), wf_parts p -> Forall arg_ok ops ->
   exists p', run ops (compose p) = Some (compose p') /\ wf_parts p'.
 Proof. exact run_wf. Qed.
 Print Assumptions C04_setter_sequences_partial.
+
+(* the same for sequences that MIX the five setters, path push, path clear, and whole histories of
+   set_userinfo / set_host / set_port edits through one authority handle (the invariant additionally says that
+   the authority, when present, is [userinfo@]host[:port] with delimiter-well-formed parts): every call returns
+   (no panic: all index arithmetic is checked in the model) and the buffer is again compose of such parts.
+   Not covered by this theorem: pop, symbolic_push/append, normalize, resolve (model + correspondence only). *)
+Theorem C04_mixed_sequences_partial : forall (ms : list mop) (p : parts), wf_parts p -> auth_shape p -> Forall marg_ok ms ->
+  exists p', mrun ms (compose p) = Some (compose p') /\ wf_parts p' /\ auth_shape p'.
+Proof. exact mrun_wf. Qed.
+Print Assumptions C04_mixed_sequences_partial.
 
 (* totality of the splice: allocate_range never indexes out of bounds on a range inside the buffer *)
 Theorem C04_splice_total : forall A O T len, exists J, length J = len /\
